@@ -3,7 +3,7 @@
    maps, bookkeeping, table keyed), Bits.v, Grouping.v; this file adds statements that combine them. *)
 From Coq Require Import ZArith List Bool Lia Permutation.
 From FV Require Import Lib.RustInt C18.Model.
-From FV Require Export C18.GkProofs C18.Runs C18.GkProofs2 C18.Bits.
+From FV Require Export C18.GkProofs C18.Runs C18.GkProofs2 C18.Bits C18.Grouping.
 Import ListNotations.
 Open Scope Z_scope.
 
@@ -23,35 +23,6 @@ Proof.
   split; [eapply build_loop_fits; apply B; eauto|]. exists total. now apply choose_type_spec.
 Qed.
 
-(* glyf/loca: the tables put into the new font are the builder's data and its encoded offsets, and
-   the loca format never changes *)
-Lemma patch_glyf_inv f views maxgid adds :
-  patch_glyf f views maxgid = inr adds ->
-  exists glyf T offs os ds,
-    lookup f T_glyf = Some glyf /\ read_loca f = Some (T, offs) /\
-    patch_offset_array views T_glyf offs glyf T [T] (6, 10) maxgid = inr (T, os, ds) /\
-    adds = [(T_glyf, ds); (T_loca, encode_offsets T os)].
-Proof.
-  unfold patch_glyf. destruct (lookup f T_glyf) as [glyf|]; [|discriminate].
-  destruct (read_loca f) as [[T offs]|]; [|discriminate].
-  destruct (patch_offset_array views T_glyf offs glyf T [T] (6, 10) maxgid) as [?|[[T' os] ds]] eqn:E; cbn [bind]; [discriminate|].
-  destruct (otype_eqb T' T) eqn:Q; cbn [negb]; [|discriminate].
-  intros H; inversion H; subst.
-  assert (T' = T).
-  { unfold patch_offset_array in E. destruct (dedup views T_glyf) as [[? ?]|m]; [discriminate|].
-    destruct (retained_total _ offs _ 0); cbn [bind] in E; [discriminate|].
-    match type of E with context [choose_type T [T] ?tt] => destruct (choose_type T [T] tt) as [?|T0] eqn:C end;
-      cbn [bind] in E; [discriminate|].
-    destruct (last _ 0 >? maxgid); [discriminate|]. destruct (ascending offs); cbn [negb] in E; [|discriminate].
-    match type of E with context [build_runs ?a ?b ?c ?d offs glyf T0 ?e 0 [] []] =>
-      destruct (build_runs a b c d offs glyf T0 e 0 [] []) as [?|[o1 d1]] end; cbn [bind] in E; [discriminate|].
-    inversion E; subst.
-    apply choose_type_spec in C. destruct C as [[_ ->]|[_ [_ [pre [post [Hp _]]]]]]; [reflexivity|].
-    destruct pre as [|a pre]; cbn in Hp; [inversion Hp; reflexivity|].
-    inversion Hp as [[Ha Hrest]]. destruct pre; discriminate. }
-  subst T'. exists glyf, T, offs, os, ds. auto.
-Qed.
-
 (* gvar: the rebuilt table is header (flags updated) + encoded offsets, then the unchanged shared tuples,
    then the builder's data *)
 Lemma patch_gvar_inv f views maxgid adds :
@@ -61,11 +32,11 @@ Lemma patch_gvar_inv f views maxgid adds :
     patch_offset_array views T_gvar (map (fun o => dao + o) offs) g T [ot_short; ot_long] (2, 1) maxgid = inr (T', os, ds) /\
     gvar_assemble g (axis, stc, sto, gc, fl, dao, T, offs) T' os ds = inr g' /\ adds = [(T_gvar, g')].
 Proof.
-  unfold patch_gvar. destruct (lookup f T_gvar) as [g|]; [|discriminate].
-  destruct (read_gvar g) as [[[[[[[[ax stc] sto] gc] fl] dao] T] offs]|]; [|discriminate].
+  unfold patch_gvar. destruct (lookup f T_gvar) as [g|] eqn:L; [|discriminate].
+  destruct (read_gvar g) as [[[[[[[[ax stc] sto] gc] fl] dao] T] offs]|] eqn:RG; [|discriminate].
   destruct (patch_offset_array _ _ _ _ _ _ _ _) as [?|[[T' os] ds]] eqn:E; cbn [bind]; [discriminate|].
   destruct (gvar_assemble _ _ _ _ _) as [?|g'] eqn:G; cbn [bind]; [discriminate|].
-  intros H; inversion H; subst. exists g, ax, stc, sto, gc, fl, dao, T, offs, T', os, ds, g'. auto.
+  intros H; inversion H; subst. exists g, ax, stc, sto, gc, fl, dao, T, offs, T', os, ds, g'. repeat split; auto.
 Qed.
 
 (* table keyed: a REPLACE entry is decoded without any dictionary — whatever the base font holds *)
@@ -103,5 +74,5 @@ Proof.
       destruct (Z.testbit fl0 1); [eapply IH; eauto|].
       destruct (lookup f t0), (Z.testbit fl0 0); try discriminate;
         match type of Hr with context [dec ?a ?b ?c ?d] => destruct (dec a b c d) end; try discriminate; eapply IH; eauto. }
-  eapply G; eauto.
+  eapply (G _ 0%nat [] [] _ (fun K => K)); eauto.
 Qed.
